@@ -98,4 +98,180 @@ theorem sessStep_safe (cfg : Cfg) (s : S) (h : Safe s) (i : Input) : Safe (sessS
 
 theorem bs2s_length (p : Path) : (bs2s p).length = p.length := by simp [bs2s]
 
+/-! ### the remembered upload name through the UltraVNC entry points and whole sessions
+
+`UpOk root s`: the name in the extension's per-client upload record is empty or a path ConvertPath
+accepted earlier.  The UltraVNC handlers never write the record (they can only drop it by closing
+the client). -/
+
+@[simp] theorem upOk_setCl (root f) (s : S) (ht : (f s.cl).tight = s.cl.tight) :
+    UpOk root (setCl f s) ↔ UpOk root s := upOk_of_eq (upName_of_tight ht)
+@[simp] theorem upOk_setNextFd (root k) (s : S) : UpOk root (setNextFd k s) ↔ UpOk root s := Iff.rfl
+@[simp] theorem upOk_bumpCalls (root) (s : S) : UpOk root (bumpCalls s) ↔ UpOk root s := Iff.rfl
+@[simp] theorem upOk_endTransfer (root) (s : S) : UpOk root (endTransfer s) ↔ UpOk root s := Iff.rfl
+@[simp] theorem upOk_popTok (root) (s : S) : UpOk root (popTok s).2 ↔ UpOk root s :=
+  upOk_of_eq (upName_of_tight (by simp))
+@[simp] theorem upOk_doFstat (root k) (s : S) : UpOk root (doFstat k s).2 ↔ UpOk root s :=
+  upOk_of_eq (upName_of_tight (by simp))
+@[simp] theorem upOk_doCompress (root n) (s : S) : UpOk root (doCompress n s).2 ↔ UpOk root s := by
+  unfold doCompress; ftsplit
+@[simp] theorem upOk_doUncompress (root n) (s : S) : UpOk root (doUncompress n s).2 ↔ UpOk root s := by
+  unfold doUncompress; ftsplit
+@[simp] theorem upOk_consult (root f) (s : S) : UpOk root (consult f s).2 ↔ UpOk root s := by
+  unfold consult; simp
+
+/-- split every branch and move `UpOk` through the calls -/
+macro "usplit" : tactic => `(tactic| (
+  (try simp only []); (repeat' split);
+  all_goals (try simp_all (maxDischargeDepth := 12) [upOk_closeClient])))
+
+theorem macroCheck_upOk (root cfg) (s : S) (h : UpOk root s) : UpOk root (macroCheck cfg s).2 := by
+  unfold macroCheck; usplit
+theorem chunkCheck_upOk (root cfg) (s : S) (h : UpOk root s) : UpOk root (chunkCheck cfg s).2 := by
+  unfold chunkCheck; usplit
+theorem translate_upOk (root cfg p n) (s : S) (h : UpOk root s) : UpOk root (translate cfg p n s).2 := by
+  have := macroCheck_upOk root cfg s h
+  unfold translate; usplit
+theorem sendMsg_upOk (root cfg ct cp size len pl) (s : S) (h : UpOk root s) :
+    UpOk root (sendMsg cfg ct cp size len pl s).2 := by
+  have := macroCheck_upOk root cfg s h
+  unfold sendMsg; usplit
+theorem readBuffer_upOk (root cfg n) (s : S) (h : UpOk root s) : UpOk root (readBuffer cfg n s).2 := by
+  have := macroCheck_upOk root cfg s h
+  unfold readBuffer; usplit
+theorem dirLoop_upOk (root cfg path) (names : List Path) (s : S) (h : UpOk root s) :
+    UpOk root (dirLoop cfg path names s) := by
+  have hs := sendMsg_upOk root cfg
+  induction names generalizing s with
+  | nil => unfold dirLoop; usplit
+  | cons name rest ih => unfold dirLoop; usplit
+theorem sendDirContent_upOk (root cfg len buf) (s : S) (h : UpOk root s) :
+    UpOk root (sendDirContent cfg len buf s) := by
+  have h1 := macroCheck_upOk root cfg
+  have h2 := translate_upOk root cfg
+  have h3 := sendMsg_upOk root cfg
+  have h4 := dirLoop_upOk root cfg
+  unfold sendDirContent; usplit
+theorem chunk_upOk (root cfg) (s : S) (h : UpOk root s) : UpOk root (chunk cfg s).2 := by
+  have h1 := chunkCheck_upOk root cfg
+  have h3 := sendMsg_upOk root cfg
+  unfold chunk; usplit
+@[simp] theorem upOk_closeOld (root) (s : S) : UpOk root (closeOld s) ↔ UpOk root s := by
+  unfold closeOld; ftsplit
+@[simp] theorem upOk_openForRead (root f) (s : S) : UpOk root (openForRead f s).2 ↔ UpOk root s := by
+  unfold openForRead; ftsplit
+@[simp] theorem upOk_packetWrite (root fd size len buf) (s : S) :
+    UpOk root (packetWrite fd size len buf s).2 ↔ UpOk root s := by
+  unfold packetWrite; ftsplit
+@[simp] theorem upOk_deletePath (root p) (s : S) : UpOk root (deletePath p s).2 ↔ UpOk root s := by
+  unfold deletePath; ftsplit
+theorem ftRequest_upOk (root cfg size len) (s : S) (h : UpOk root s) : UpOk root (ftRequest cfg size len s) := by
+  have h1 := readBuffer_upOk root cfg
+  have h2 := translate_upOk root cfg
+  have h3 := sendMsg_upOk root cfg
+  unfold ftRequest; usplit
+theorem ftHeader_upOk (root cfg size) (s : S) (h : UpOk root s) : UpOk root (ftHeader cfg size s) := by
+  have h1 := chunk_upOk root cfg
+  unfold ftHeader; usplit
+theorem ftOffer_upOk (root cfg len) (s : S) (h : UpOk root s) : UpOk root (ftOffer cfg len s) := by
+  have h1 := readBuffer_upOk root cfg
+  have h2 := translate_upOk root cfg
+  have h3 := sendMsg_upOk root cfg
+  unfold ftOffer; usplit
+theorem ftPacket_upOk (root cfg size len) (s : S) (h : UpOk root s) : UpOk root (ftPacket cfg size len s) := by
+  have h1 := readBuffer_upOk root cfg
+  unfold ftPacket; usplit
+theorem ftEof_upOk (root) (s : S) (h : UpOk root s) : UpOk root (ftEof s) := by
+  unfold ftEof; usplit
+theorem ftAbort_upOk (root cfg cp) (s : S) (h : UpOk root s) : UpOk root (ftAbort cfg cp s) := by
+  have h3 := sendMsg_upOk root cfg
+  unfold ftAbort; usplit
+theorem ftCommand_upOk (root cfg cp len) (s : S) (h : UpOk root s) : UpOk root (ftCommand cfg cp len s) := by
+  have h1 := readBuffer_upOk root cfg
+  have h2 := translate_upOk root cfg
+  have h3 := sendMsg_upOk root cfg
+  unfold ftCommand; usplit
+theorem processFT_upOk (root cfg ct cp size len) (s : S) (h : UpOk root s) :
+    UpOk root (processFT cfg ct cp size len s) := by
+  have h0 := macroCheck_upOk root cfg
+  have h1 := readBuffer_upOk root cfg
+  have h3 := sendMsg_upOk root cfg
+  have a1 := sendDirContent_upOk root cfg
+  have a2 := ftRequest_upOk root cfg
+  have a3 := ftHeader_upOk root cfg
+  have a4 := ftOffer_upOk root cfg
+  have a5 := ftPacket_upOk root cfg
+  have a6 := ftEof_upOk root
+  have a7 := ftAbort_upOk root cfg
+  have a8 := ftCommand_upOk root cfg
+  unfold processFT; usplit
+
+theorem tightMsg_upOk (cfg ty) (s : S) (hu : UpOk cfg.root s) : UpOk cfg.root (tightMsg cfg ty s) := by
+  have hu' : UpOk cfg.root (emit (.chk true) s) := hu
+  unfold tightMsg
+  simp only []
+  split
+  · exact upOk_closeClient _ _
+  · split
+    · exact upOk_closeClient _ _
+    · split
+      · exact upOk_closeClient _ _
+      · split
+        · exact tList_upOk cfg _ hu'
+        · exact tDownload_upOk cfg _ hu'
+        · exact tUpload_upOk cfg _ hu'
+        · exact tUploadData_upOk _ _ hu'
+        · exact tReason_upOk _ _ _ hu'
+        · exact tReason_upOk _ _ _ hu'
+        · exact tMkdir_upOk cfg _ hu'
+        · exact upOk_closeClient _ _
+
+theorem stepMsg_upOk (cfg) (s : S) (h : UpOk cfg.root s) : UpOk cfg.root (stepMsg cfg s) := by
+  have h1 := processFT_upOk cfg.root cfg
+  unfold stepMsg
+  simp only []
+  split
+  · exact h
+  · split
+    · rw [upOk_emit, upOk_setCl _ _ _ rfl]; exact h
+    · split
+      · exact upOk_closeClient _ _
+      · split
+        · split
+          · exact upOk_closeClient _ _
+          · exact h1 _ _ _ _ _ (by simpa using h)
+        · exact tightMsg_upOk _ _ _ (by simpa using h)
+theorem chunkEntry_upOk (root cfg) (s : S) (h : UpOk root s) : UpOk root (chunkEntry cfg s).2 :=
+  chunk_upOk root cfg _ h
+theorem pump_upOk (cfg fuel) (s : S) (h : UpOk cfg.root s) : UpOk cfg.root (pump cfg fuel s) := by
+  induction fuel generalizing s with
+  | zero => exact h
+  | succ n ih =>
+    unfold pump; split
+    · exact h
+    · exact ih _ (stepMsg_upOk cfg s h)
+theorem sessStep_upOk (cfg) (s : S) (h : UpOk cfg.root s) (i : Input) : UpOk cfg.root (sessStep cfg s i) := by
+  cases i with
+  | bytes b =>
+    simp only [sessStep]; split
+    · exact pump_upOk cfg _ _ (by simpa using h)
+    · exact h
+  | chunk => exact chunkEntry_upOk _ cfg s h
+  | gone =>
+    simp only [sessStep]; split
+    · exact upOk_closeClient _ _
+    · exact h
+  | reap =>
+    simp only [sessStep]; split
+    · exact h
+    · unfold reapClient
+      split
+      · rw [upOk_setCl _ _ _ rfl]; exact h
+      · exact h
+theorem runSession_upOk (cfg) (inputs : List Input) (s : S) (h : UpOk cfg.root s) :
+    UpOk cfg.root (runSession cfg s inputs) := by
+  induction inputs generalizing s with
+  | nil => exact h
+  | cons i rest ih => exact ih _ (sessStep_upOk cfg s h i)
+
 end VncModel.FileXfer
